@@ -160,7 +160,8 @@ static unsigned long long nx_state_hash(void)
 static int nx_leaf_bytes(char *buf, int max)
 {
 	(void) max;
-	strcpy(buf, "\x1b:q!\n");
+	/* the property's own observation: a marker typed at the cursor, then the buffer is written */
+	strcpy(buf, "\x1biX\x1b:w! out\n:q!\n");
 	return strlen(buf);
 }
 static void nx_at_exit(void)
@@ -214,6 +215,7 @@ int main(int argc, char **argv)
 	nx_hist_name = hist_name;
 	nx_pre_state = pre_state;
 	nx_shard_level = -1;
+	nx_trace_every = atoi(nv_arg(argc, argv, "trace", nv_thorough ? "97" : "41"));
 	setenv("EXINIT", "", 1);
 	build_ops();
 	d = atoi(nv_arg(argc, argv, "depth", nv_thorough ? "3" : "2"));
